@@ -16,9 +16,10 @@
      not find its node is a dangling pointer and yields [Fault].
    * [b_fn] is the function pointer: [Some hid] = the handler with number hid,
      [None] = NULL.  Calling NULL yields [Fault].
-   * Handlers are an environment [env]: given the trace so far, the handler number, the
-     binding's name (the data pointer) and the TickitEventFlags it is invoked with, it
-     answers with a script of actions to perform and the handler's return value.
+   * Handlers are an environment [env]: given the trace so far (newest event first; its
+     head is the TCallB of this very invocation), the handler number, the binding's name
+     (the data pointer) and the TickitEventFlags it is invoked with, it answers with a
+     script of actions to perform and the handler's return value.
    * Fuel: every recursive call of [exec] consumes one unit; [OutOfFuel] is a separate
      result, never a normal-looking value.
    * [cfg]: the two one-shot deviations of the pinned code (DESIGN section 11, #15) can
@@ -138,7 +139,8 @@ Definition rbind {A B} (r : res A) (k : A -> res B) : res B :=
 Definition env_t := list tev -> Z -> Z -> Z -> list action * Z.
 
 Inductive task :=
-| KCall (fn : option Z) (name flags : Z)     (* call fn(owner, flags, info, data) *)
+| KCall (fn : option Z) (name flags : Z)     (* the body of the call fn(owner, flags, info, data);
+                                                the caller has logged TCallB name flags *)
 | KActs (acts : list action)                 (* a handler body / the top-level history *)
 | KAct (a : action)
 | KLoop (wf : bool) (ev : Z) (cur : option Z)  (* the for loop of run_event[_whilefalse], at node cur *)
@@ -169,7 +171,7 @@ Fixpoint exec (fuel : nat) (t : task) (w : world) : res (world * Z) :=
         | None => Fault
         | Some hid =>
             let '(acts, ret) := env (wt w) hid name flags in
-            rbind (exec f (KActs acts) (log (TCallB name flags) w))
+            rbind (exec f (KActs acts) w)
                   (fun '(w1, _) => Ok (log (TCallE ret) w1, ret))
         end
     | KActs acts =>
@@ -191,7 +193,9 @@ Fixpoint exec (fuel : nat) (t : task) (w : world) : res (world * Z) :=
             let s1 := mkS (update_node (b_data b) tombstone (first s)) (is_iter s) true in
             let was := is_iter s1 in
             let w1 := set_state (begin_iteration s1) w0 in
-            rbind (if notify then exec f (KCall (b_fn b) (b_data b) EV_UNBIND) w1 else Ok (w1, 0))
+            rbind (if notify
+                   then exec f (KCall (b_fn b) (b_data b) EV_UNBIND) (log (TCallB (b_data b) EV_UNBIND) w1)
+                   else Ok (w1, 0))
                   (fun '(w2, _) => Ok (log TUnbindE (set_state (end_iteration was (ws w2)) w2), 0))
         end
     | KAct (AEmit ev) =>
@@ -216,7 +220,7 @@ Fixpoint exec (fuel : nat) (t : task) (w : world) : res (world * Z) :=
             | Some b =>
                 if b_ev b =? ev then
                   let '(s1, flags) := visit wf b (ws w) in
-                  rbind (exec f (KCall (b_fn b) d flags) (set_state s1 w))
+                  rbind (exec f (KCall (b_fn b) d flags) (log (TCallB d flags) (set_state s1 w)))
                         (fun '(w1, ret) =>
                            if wf && negb (ret =? 0) then Ok (w1, ret)
                            else match next_of d (first (ws w1)) with
@@ -237,7 +241,9 @@ Fixpoint exec (fuel : nat) (t : task) (w : world) : res (world * Z) :=
             let b := last l (mkB 0 0 0 None 0) in
             let w0 := set_state (mkS (removelast l) (is_iter (ws w)) (needs_del (ws w))) w in
             let notify := (b_ev b =? 0) || has (b_flags b) (BIND_UNBIND + BIND_DESTROY) in
-            rbind (if notify then exec f (KCall (b_fn b) (b_data b) (EV_UNBIND + EV_DESTROY)) w0
+            rbind (if notify
+                   then exec f (KCall (b_fn b) (b_data b) (EV_UNBIND + EV_DESTROY))
+                               (log (TCallB (b_data b) (EV_UNBIND + EV_DESTROY)) w0)
                    else Ok (w0, 0))
                   (fun '(w1, _) => exec f KDestroy w1)
         end
